@@ -24,6 +24,8 @@ SHAPES = {
     # provided method whose parameters are patterns (destructuring first, then a `ref` binding)
     "pt": dict(g="", ps=[("(w, h)", "(i64, i64)", "(11, 12)", "w"), ("ref lab", "i64", "13", "lab")], ret="i64", res="w * 100 + lab",
                default="w + h + *lab", plain=[("wh", "(i64, i64)"), ("lab", "i64")], show=["wh.0", "lab"]),
+    # like a1, but the trait is stamped out by macro_rules and the METHOD NAME is a macro argument (`&self` is written in the macro body)
+    "hm": dict(g="", ps=[("a", "i64", "11", "a")], ret="i64", res="a + 1", stamped=True, name_from_macro=True),
     # qualifiers on trait methods are part of the signature that is mirrored
     "um": dict(g="", ps=[("a", "i64", "11", "a")], ret="i64", res="a + 1", qual="unsafe "),
     "em": dict(g="", ps=[("a", "i64", "11", "a")], ret="i64", res="a + 1", qual='extern "C" '),
@@ -51,10 +53,10 @@ def enumerate_states(tier):
         needs_g = any(SHAPES[x].get("needs_g") for x in w)
         dyn_ok = all(SHAPES[x].get("dyn", True) for x in w)
         for sel in SELECTORS:
-            for generic in (False, True, "bd"):
+            for generic in (False, True, "bd", "cn"):
                 if needs_g and not generic:
                     continue
-                if generic == "bd" and tier != "thorough" and len(w) == 2:
+                if generic in ("bd", "cn") and tier != "thorough" and len(w) == 2:
                     continue
                 for sup in SUPERS:
                     if tier != "thorough" and len(w) == 2 and sup == "where":
@@ -65,7 +67,7 @@ def enumerate_states(tier):
                                 continue       # generic methods: not dyn-compatible, outside the supported class for dyn delegation
                             if asy and flavour == "native":
                                 continue       # native async fn in traits is not dyn-compatible
-                        key = "t_%s_%s_%s_%s_%s" % ("_".join(w), sel, {False: "n", True: "g", "bd": "gbd"}[generic], {"": "x", ": 'static": "st", "where": "wh"}[sup],
+                        key = "t_%s_%s_%s_%s_%s" % ("_".join(w), sel, {False: "n", True: "g", "bd": "gbd", "cn": "gcn"}[generic], {"": "x", ": 'static": "st", "where": "wh"}[sup],
                                                     "at" if flavour == "async_trait" else "na")
                         states.append(dict(key=key, word=list(w), sel=sel, generic=generic, sup=sup, flavour=flavour))
     return states, len(states), dict(method_shapes=len(SHAPES), word_len=maxlen, selectors=SELECTORS)
@@ -88,10 +90,13 @@ def render(s):
     w = s["word"]
     # (dyn delegation of a generic trait needs `G: 'static`: the default object lifetime of `dyn Tr<G>` demands it)
     G = ("<G: 'static>" if s["sel"] in ("ref", "borrow") else "<G>") if s["generic"] else ""
+    if s["generic"] == "cn":
+        # a const parameter declared BEFORE the type parameter: generic arguments are positional
+        G = "<const N: usize, G: 'static>"
     if s["generic"] == "bd":
         # a type parameter with an inline bound AND a default
         G = "<G: ::core::clone::Clone + ::core::convert::Into<i64> + 'static = i64>"
-    GA = "<i64>" if s["generic"] else ""
+    GA = ("<2, i64>" if s["generic"] == "cn" else "<i64>") if s["generic"] else ""
     asy = any(SHAPES[x].get("asy") for x in w)
     at = "#[::async_trait::async_trait]" if s["flavour"] == "async_trait" else ""
     attr = {"default": "", "self": "delegate_by = Self", "ref": "delegate_by = ref", "borrow": "delegate_by = Borrow"}[s["sel"]]
@@ -106,18 +111,18 @@ def render(s):
     L = ["mod %s {" % key, "    use super::rt;"]
     stamped = any(SHAPES[x].get("stamped") for x in w)
     if stamped:
-        L.append("    macro_rules! stamp { ($p:ident) => {")
+        L.append("    macro_rules! stamp { ($p:ident%s) => {" % "".join(", $n%d:ident" % i for i in range(len(w))))
     L.append("    #[::entrait::entrait(%s)]" % attr)
     if at:
         L.append("    " + at)
     L.append("    %s {" % head)
     L.append("        fn name(&self) -> &str;")
     for i, x in enumerate(w):
-        L.append("        " + method_decl(x, "m%d" % i, in_trait=True))
+        L.append("        " + method_decl(x, "$n%d" % i if SHAPES[x].get("name_from_macro") else "m%d" % i, in_trait=True))
     L.append("    }")
     if stamped:
         L.append("    } }")
-        L.append("    stamp!(a);")
+        L.append("    stamp!(a%s);" % "".join(", m%d" % i for i in range(len(w))))
     # tracing provider
     L.append("    pub struct P(pub &'static str);")
     if at:
@@ -130,7 +135,7 @@ def render(s):
         ev = "rt::ev(%s);" % gen.fmt_call("P.m%d|{:x}" % i if False else "P.m%d" % i, ['format!("{:x}", rt::addr(self))'] + shows)
         pre = "rt::yield_once().await; " if d.get("asy") else ""
         res = d["res"].replace("w * 100", "wh.0 * 100") if "plain" in d else d["res"]
-        decl = method_decl(x, "m%d" % i, pre + ev + " " + res).replace("$p:", "a:").replace(", a: i64)", ", b: i64)") if d.get("stamped") else method_decl(x, "m%d" % i, pre + ev + " " + res)
+        decl = method_decl(x, "m%d" % i, pre + ev + " " + res).replace("$p:", "a:").replace(", a: i64)", ", b: i64)") if (d.get("stamped") and not d.get("name_from_macro")) else method_decl(x, "m%d" % i, pre + ev + " " + res)
         if s["generic"]:
             decl = decl.replace(": G", ": i64").replace("-> G", "-> i64")
         L.append("        " + decl)
@@ -161,7 +166,7 @@ def render(s):
             d = SHAPES[x]
             body = d["res"].replace("w * 100", "wh.0 * 100") if "plain" in d else d["res"]
             decl = method_decl(x, "m%d" % i, body)
-            if d.get("stamped"):
+            if d.get("stamped") and not d.get("name_from_macro"):
                 decl = decl.replace("$p:", "a:").replace(", a: i64)", ", b: i64)")
             if s["generic"]:
                 decl = decl.replace(": G", ": i64").replace("-> G", "-> i64")
@@ -203,7 +208,7 @@ def model(s):
         d = SHAPES[x]
         shown = {"11": "11", "12": "12", "13": "13", '"s11"': "s11", "11i64": "11", "11u8": "11", "(11, 12)": "11"}
         args = [shown[p[2]] for p in d["ps"]]
-        res = {"n0": "7", "a1": "12", "a2": "1112", "h2": "1112", "df": "12", "dfs": "12", "pt": "1113", "um": "12", "em": "12", "s2": "s11-12", "bor": "s11", "slf": "prov", "gen": "11", "gm": "11",
+        res = {"n0": "7", "a1": "12", "a2": "1112", "h2": "1112", "df": "12", "dfs": "12", "pt": "1113", "um": "12", "em": "12", "hm": "12", "s2": "s11-12", "bor": "s11", "slf": "prov", "gen": "11", "gm": "11",
                "xa1": "12", "xa2": "1112", "xs": "3", "xu": "()"}[x]
         exp["m%d" % i] = dict(trace_tail="|".join(args), result=res)
     try_dyn = all(SHAPES[x].get("dyn", True) for x in w) and not (asy and s["flavour"] == "native")
